@@ -4,7 +4,7 @@ CONSTANTS
   FB = 52
   XEB = 15
   XFB = 64
-  FracMode = "boundary"
+  FracMode = "lite"
   Origins = {"native"}
   MaxTrips = 2
 INVARIANTS
